@@ -4,6 +4,8 @@ lemmas (HintsChars) and the token-level ones (HintsSched).
 -/
 import Paroxy.Proofs.HintsChars
 import Paroxy.Proofs.HintsSched
+import Paroxy.Proofs.HintsNorm
+import Paroxy.Proofs.HintsTrim
 import Paroxy.Proofs.Isort
 namespace Paroxy.Hints
 
@@ -150,7 +152,7 @@ theorem scanIsolated_decorated (d : Decorated) (ok : ∀ c ∈ codeLines d, OkCo
     | isolated n L =>
       have hL := hw L (by simp [wholeLabels])
       have := ih (fun x hx => ok x (by simpa [codeLines] using hx)) (fun L' hL' => hw L' (by simp [wholeLabels, hL']))
-      simp [scanIsolated, renderLine, isolatedRest_isolated n L hL.ne, splitWs_clean L hL, this, codeLines, wholeLabels]
+      simp [scanIsolated, renderLine, isolatedRest_isolated n L, splitWs_clean L hL, this, codeLines, wholeLabels]
 
 theorem renderLine_noNL (d : Decorated) (ok : ∀ c ∈ codeLines d, OkCode c)
     (hw : ∀ L ∈ wholeLabels d, Clean L) : ∀ l ∈ d.map renderLine, '\n' ∉ l := by
@@ -315,7 +317,6 @@ theorem centrifugate_decorate (d : Decorated) (hy : Hyg d) :
   simp only [hsplit, hscan]
   by_cases hw : wholeLabels d = []
   · simp only [hw, if_true, sortDedup_nil, centrifuged_nil_render]
-    rw [decorate, lines_of_no_isolated d hw]
   · simp only [hw, if_false]
     cases hcs : codeLines d with
     | nil => exact absurd hcs hy.ne
@@ -705,7 +706,7 @@ theorem events_eq (d : Decorated) (L : Str) :
 /-- **`get_program` on a decorated program.** -/
 theorem getProgram_decorate (d : Decorated) (r : Str → List SSpan) (hy : Hyg d)
     (hbal : ∀ L, Bal (events d L) (r L)) (hnt : ∀ L, NoTie (events d L)) :
-    ∃ p, getProgram (decorate d) = .ok p ∧ p.source = joinNL (base d) ∧
+    ∃ p, getProgramFrom (decorate d) = .ok p ∧ p.source = joinNL (base d) ∧
       (∀ L sp, p.addition.count L sp = (r L).count (false, sp)) ∧
       (∀ L sp, p.deletion.count L sp = (r L).count (true, sp)) := by
   let ws := sortDedup (wholeLabels d)
@@ -761,7 +762,7 @@ theorem getProgram_decorate (d : Decorated) (r : Str → List SSpan) (hy : Hyg d
   · have hc2 := hcollect
     have hs2 := hsrc
     simp only [cs', ws] at hc2 hs2
-    simp only [getProgram, hcent, hc2, hs2]
+    simp only [getProgramFrom, hcent, hc2, hs2]
   · intro L sp
     show (getResult st'.add.result).count L sp = _
     rw [count_getResult, ← count_adds]
